@@ -828,7 +828,7 @@ pub fn digest(seed: u64, n: u64, workers: usize) -> Vec<u64> {
 pub fn run(opts: &Opts) -> i32 {
     let t0 = now();
     let thorough = opts.tier == Tier::Thorough;
-    let n = if opts.budget > 0 { opts.budget } else if thorough { 2_000_000 } else { 30_000 };
+    let n = if opts.budget > 0 { opts.budget } else if thorough { 12_000_000 } else { 300_000 };
     let seed = opts.seed;
     let (results, viol) = run_batch(n, opts.workers, move |i| job(seed, i));
     let mut st = Stats::default();
